@@ -342,7 +342,7 @@ func init() {
 	All["C12"] = func() int {
 		rep := core.NewReport("C12", "model_checking")
 		pool := core.NewPool()
-		depth, maxStates, budget := 3, 200000, 150*time.Second
+		depth, maxStates, budget := 4, 200000, 150*time.Second
 		if rep.Thorough() {
 			depth, maxStates, budget = 5, 3000000, 25*time.Minute
 		}
